@@ -417,8 +417,19 @@ func failingPkgs(out string) map[string]string {
 		}
 		m[pkg] = strings.TrimSpace(out[loc[0]:end])
 	}
+	// load errors have no "# pkg" header:
+	//   package a/b
+	//   	imports c/internal/d: use of internal package c/internal/d not allowed
+	for _, loc := range pkgLoadErrRe.FindAllStringSubmatchIndex(out, -1) {
+		pkg := out[loc[2]:loc[3]]
+		if _, ok := m[pkg]; !ok {
+			m[pkg] = strings.TrimSpace(out[loc[0]:loc[1]])
+		}
+	}
 	return m
 }
+
+var pkgLoadErrRe = regexp.MustCompile(`(?m)^package (\S+)\n((?:\t[^\n]*\n?)+)`)
 
 // Precheck type-checks all programs under -tags wireinject; programs that fail
 // are harness problems: they are removed from the batch (directory deleted).
